@@ -32,6 +32,8 @@ def run(ctx):
     quick = ctx.tier == "quick"
     rnd = random.Random(ctx.seed)
     ctx.add_tlc(core.tlc_or_die(ctx.workdir, "NTModel", ntdrv.model_cfg(60 if quick else 150, INV), tag="ntm", timeout=3000))
+    # (M) helpers computed from the factorisation (phi, Carmichael) agree with their definitions
+    ctx.add_tlc(core.tlc_or_die(ctx.workdir, "NTModel", ntdrv.model_cfg(150 if quick else 400, ["HelperRefines"]), tag="nthelp", timeout=3000))
     events = []
     # is_prime: exhaustive blocks (incl. n < 2 and the small-prime table boundary at 1229)
     top = 2 ** 15 if quick else 2 ** 20
